@@ -104,8 +104,11 @@ def initial_conditions(rng, H, idx, mode):
     X = np.zeros((H, 17))
     # hover set-point anywhere (the problem is translation invariant), commanded heading anywhere for the
     # position-controller cascade; the log-linear cascade keeps the simulator's default heading 0 (DESIGN 2.C17)
-    target = np.stack([rng.uniform(-50, 50, H), rng.uniform(-50, 50, H), rng.uniform(5, 60, H)], axis=1)
-    target[: max(1, H // 5)] = np.array([0, 0, 5.0])
+    # altitude: the cascades legitimately lose up to ~7 m while recovering from a 60-degree tilt at 3 m/s (measured on
+    # the unchanged tree); a start a few metres above the stiff ground model would turn that into a ground impact that
+    # says nothing about the control law (this is what the first thorough run tripped over), so set-points are >= 30 m up
+    target = np.stack([rng.uniform(-50, 50, H), rng.uniform(-50, 50, H), rng.uniform(30, 90, H)], axis=1)
+    target[: max(1, H // 5)] = np.array([0, 0, 30.0])
     psi_sp = rng.uniform(-PI, PI, H) if mode == "position_control" else np.zeros(H)
     psi_sp[: max(1, H // 5)] = 0.0
     X[:, idx["IP"]] = target + rng.uniform(-1.5, 1.5, (H, 3))
